@@ -129,6 +129,9 @@ func (g *gl) call(c *ast.CallExpr, bs *[]glBind) string {
 	}
 	if fn != nil && strings.HasPrefix(fn.Pkg().Path(), glModPrefix) {
 		t := g.fns[fn]
+		if t != nil && g.inlinable(t) {
+			return g.inlineCall(t, c, bs)
+		}
 		if t != nil && g.translateFn(t) {
 			if t.recv != nil && t.recvPtr {
 				g.bad(c.Pos(), "value of a pointer-receiver method call used inside an expression (%s)", name)
@@ -194,6 +197,51 @@ func (g *gl) builtin(name string, c *ast.CallExpr, bs *[]glBind) string {
 	}
 	g.bad(c.Pos(), "builtin %s in this form", name)
 	return "sorryBuiltin"
+}
+
+// a function whose body is a single `return <expr>` is inlined at the call (so that extracting an expression into a
+// helper, or folding a helper back, translates to the same term)
+func (g *gl) inlinable(t *glFn) bool {
+	sig := t.obj.Type().(*types.Signature)
+	if sig.Recv() != nil || sig.Results().Len() != 1 || len(t.decl.Body.List) != 1 || sig.Variadic() {
+		return false
+	}
+	rs, ok := t.decl.Body.List[0].(*ast.ReturnStmt)
+	if !ok || len(rs.Results) != 1 {
+		return false
+	}
+	for i := 0; i < sig.Params().Len(); i++ {
+		if g.leanType(sig.Params().At(i).Type()) == "" {
+			return false
+		}
+	}
+	hasCall := false
+	ast.Inspect(rs.Results[0], func(n ast.Node) bool {
+		if ce, ok := n.(*ast.CallExpr); ok {
+			if tv, ok := t.pkg.TypesInfo.Types[ce.Fun]; !ok || !tv.IsType() {
+				hasCall = true
+			}
+		}
+		return true
+	})
+	return !hasCall && g.leanType(sig.Results().At(0).Type()) != ""
+}
+
+func (g *gl) inlineCall(t *glFn, c *ast.CallExpr, bs *[]glBind) string {
+	sig := t.obj.Type().(*types.Signature)
+	var args []string
+	for _, a := range c.Args {
+		args = append(args, g.expr(a, bs))
+	}
+	for i, a := range args {
+		v := sig.Params().At(i)
+		*bs = append(*bs, glBind{g.vname(v) + " : " + g.leanType(v.Type()), a, true})
+	}
+	saved := g.cur
+	g.cur = &glFn{obj: t.obj, decl: t.decl, pkg: t.pkg, lean: saved.lean}
+	r := g.expr(t.decl.Body.List[0].(*ast.ReturnStmt).Results[0], bs)
+	g.cur = saved
+	return r
 }
 
 // logging: fmt.Print*, slog.* as statements have no effect on the values; their arguments are still evaluated (a
